@@ -55,6 +55,9 @@ def cfgs_B():
             for ne in (False, True):
                 out.append(V.K(precedence=p, not_eq=ne, or_in=oi, and_in=ai, in_wild=iw))
     allt = frozenset(V.ALL_TEMPLATES)
+    for oi, ai, iw in itertools.product((False, True), repeat=3):  # the in-list knobs also without native CIDR (expanded patterns)
+        for ne in (False, True):
+            out.append(V.K(not_eq=ne, or_in=oi, and_in=ai, in_wild=iw, templates=allt - {"cidr"}))
     for p in PRECS:
         for par in (False, True):
             out.append(V.K(precedence=p, parenthesize=par, templates=allt - {"notexists"}))
